@@ -28,9 +28,14 @@ type dump = {
   mutable functab : (int * int * int * string) list;
   mutable centry : int;
   mutable nstr : int;
-  mutable trace : (int * int * int * int) list;  (* ip sp fp pp *)
+  mutable trace : (int * int * int * int * int) list;  (* ip sp fp pp kinds-hash (-1: not given) *)
   mutable compiled : bool;
 }
+
+(* the tree's gc.h values of GC_MEM_IP, GC_MEM_ADDR, GC_MEM_STACK (line GCTAGS of the dump) *)
+let tag_ip = ref 1 and tag_addr = ref 2 and tag_stack = ref 3
+let kind_of_slot = function SVal -> !tag_addr | SGp -> !tag_addr | SPP _ -> !tag_stack | SFP _ -> !tag_stack
+                          | SLine -> !tag_ip | SIP _ -> !tag_ip
 
 let parse file =
   let d = { code = [||]; exct = []; funcs = []; functab = []; centry = 0; nstr = 0; trace = []; compiled = false } in
@@ -44,6 +49,7 @@ let parse file =
        | "COMPILE" :: r :: _ -> d.compiled <- (r = "0")
        | "CODE" :: _ :: "ENTRY" :: e :: _ -> d.centry <- int_of_string e
        | "STRTAB" :: k :: _ -> d.nstr <- int_of_string k
+       | "GCTAGS" :: a :: b :: c :: _ -> tag_ip := int_of_string a; tag_addr := int_of_string b; tag_stack := int_of_string c
        | "I" :: _ :: op :: w0 :: w1 :: w2 :: _ ->
          code := (int_of_string op, int_of_string w0, int_of_string w1, int_of_string w2) :: !code
        | "X" :: b :: h :: _ -> d.exct <- (int_of_string b, int_of_string h) :: d.exct
@@ -51,8 +57,9 @@ let parse file =
          d.funcs <- (int_of_string a, int_of_string np, int_of_string nf, ffi <> "0", String.concat " " rest) :: d.funcs
        | "T" :: a :: et :: pc :: rest ->
          d.functab <- (int_of_string a, int_of_string et, int_of_string pc, String.concat " " rest) :: d.functab
-       | "t" :: ip :: sp :: fp :: pp :: _ ->
-         tr := (int_of_string ip, int_of_string sp, int_of_string fp, int_of_string pp) :: !tr
+       | "t" :: ip :: sp :: fp :: pp :: rest ->
+         let kh = match rest with _ :: _ :: _ :: k :: _ -> (try int_of_string k with _ -> -1) | _ -> -1 in
+         tr := (int_of_string ip, int_of_string sp, int_of_string fp, int_of_string pp, kh) :: !tr
        | _ -> ()
      done
    with End_of_file -> close_in ic);
@@ -270,7 +277,7 @@ let () =
   (* ---- lock-step of the shape machine along the real trace ---- *)
   (match d.trace with
    | [] -> print_endline "LOCKSTEP none"
-   | (ip0, sp0, fp0, pp0) :: rest ->
+   | (ip0, sp0, fp0, pp0, _) :: rest ->
      if not (ip0 = 0 && sp0 = -1 && fp0 = -1 && pp0 = -1) then
        Printf.printf "LOCKSTEP mismatch step=0 initial state ip=%d sp=%d fp=%d pp=%d\n" ip0 sp0 fp0 pp0
      else begin
@@ -282,7 +289,7 @@ let () =
        let i = ref 0 in
        let result = ref "" in
        (try
-          List.iter (fun (ip', sp', fp', pp') ->
+          List.iter (fun (ip', sp', fp', pp', kh') ->
               incr i;
               if !i > !max_steps then raise Exit;
               match step codef handf npf isentf entry !s (nat_of_int ip') (nat_of_int (sp' + 1)) with
@@ -291,6 +298,13 @@ let () =
                 if f <> fp' + 1 || p <> pp' + 1 then begin
                   result := Printf.sprintf "LOCKSTEP mismatch step=%d at ip=%d: model fp=%d pp=%d, real fp=%d pp=%d (next ip=%d)"
                       !i (int_of_nat !s.ip) (f - 1) (p - 1) fp' pp' ip'; raise Exit end;
+                (* the collector's view of the stack: gc_stack tag of every slot 0..sp (GC_MEM_ADDR = root) *)
+                if kh' >= 0 then begin
+                  let h = List.fold_left (fun h sl -> (h * 31 + kind_of_slot sl) land 0xffffffff) 0 s'.stk in
+                  if h land 0x3fffffff <> kh' then begin
+                    let (op, _, _, _) = d.code.(int_of_nat !s.ip) in
+                    result := Printf.sprintf "LOCKSTEP kinds step=%d at ip=%d op=%d: after this instruction the gc_stack tags of slots 0..%d differ from the model's slot kinds (value and saved-gp slots GC_MEM_ADDR = roots, saved pp/fp GC_MEM_STACK, line/return address GC_MEM_IP)"
+                        !i (int_of_nat !s.ip) op sp'; raise Exit end end;
                 s := s'
               | Mismatch ->
                 result := Printf.sprintf "LOCKSTEP mismatch step=%d at ip=%d op=%d len=%d F=%d P=%d: observed next ip=%d sp=%d is not a successor"
